@@ -52,8 +52,8 @@ def run(tier, selftest):
         vlib.tool_error(f"vacuity: case families {fams}")
     rng = random.Random(vlib.seed() * 15485863 + 11)
     rand_cases = []
-    for i in range(100 if thorough else 25):
-        _, b = mergecheck.random_pair(rng, rng.choice([30, 60, 120] if thorough else [20, 40]))
+    for i in range(1200 if thorough else 25):
+        _, b = mergecheck.random_pair(rng, rng.choice([30, 60, 120, 240] if thorough else [20, 40]))
         rand_cases.append({"id": {"fam": "random", "n": i}, "G": mergecheck.to_abstract(b)})
     allc = cases + rand_cases
     mo = []
